@@ -79,6 +79,9 @@ def _num():
         st.integers(-8, 8),
         st.builds(lambda k, j: Fr(k, 2 ** j), st.integers(-4096, 4096), st.integers(0, 4)),
         st.builds(lambda k, d: Fr(k, d), st.integers(-50, 50), st.sampled_from([3, 5, 7, 10])),
+        # far beyond and far below the size of a page (the helpers are plain affine arithmetic at every magnitude)
+        st.builds(lambda k, j: Fr(k) * 2 ** j, st.integers(-9, 9), st.integers(18, 40)),
+        st.builds(lambda k, j: Fr(k, 2 ** j), st.integers(-9, 9), st.integers(18, 40)),
     )
 
 
@@ -187,8 +190,21 @@ def run_hist(case):
                     removed_boxes.remove(e[2])
                 classes.append("re-add")
                 nt = True
-            elif k == "find":
-                q = tuple(op[1])
+            elif k in ("find", "findtouch"):
+                if k == "findtouch":
+                    # a query box that shares one whole edge with a live object (they touch, they do not overlap) and
+                    # extends a, b, c grid units around / away from it
+                    live = [e for e in seq if e[1]]
+                    if not live:
+                        continue
+                    (x0, y0, x1, y1) = live[op[1] % len(live)][2]
+                    a, b, c = (v * grid for v in op[3])
+                    q = {"top": (x0 - a, y1, x1 + b, y1 + c), "bottom": (x0 - a, y0 - c, x1 + b, y0),
+                         "right": (x1, y0 - a, x1 + c, y1 + b), "left": (x0 - c, y0 - a, x0, y1 + b)}[op[2]]
+                    classes.append("find-touching")
+                    nt = True
+                else:
+                    q = tuple(op[1])
                 got = list(plane.find(q))
                 ids = [g.id for g in got]
                 if len(set(ids)) != len(ids):
@@ -256,6 +272,8 @@ def hist_cases(draw, steps):
         st.tuples(st.just("remove"), st.integers(0, 1000)), st.tuples(st.just("readd"), st.integers(0, 1000), st.booleans()),
         st.tuples(st.just("addlive"), st.integers(0, 1000), st.booleans()),
         st.tuples(st.just("find"), box), st.tuples(st.just("find"), box),
+        st.tuples(st.just("findtouch"), st.integers(0, 1000), st.sampled_from(["top", "bottom", "left", "right"]),
+                  st.tuples(st.integers(0, 3), st.integers(0, 3), st.integers(1, 3))),
         st.tuples(st.just("iter")), st.tuples(st.just("len")), st.tuples(st.just("in"), st.integers(0, 1000)),
     )
     if draw(st.integers(0, 7)) == 0:
